@@ -25,7 +25,9 @@ RULE = (
     "through open_alos2). Plus real kills: a child process runs open_alos2(create_cache=True) "
     "with a byte-wise writer installed by the harness and SIGKILLs itself at a generated offset "
     "of a generated image (quick 8, thorough 200); plus a live second writer held mid-write on a "
-    "pipe while the reader opens. Oracle after each fault: open_alos2(path) with default options "
+    "pipe while the reader opens; plus disk full: the write of one image's index stops after a "
+    "generated number of bytes with ENOSPC inside this process (the failing call may raise "
+    "OSError; later opens are judged). Oracle after each fault: open_alos2(path) with default options "
     "returns a tree identical to the uncached reference; then create_cache=True succeeds, the "
     "user-dir index file is complete (parses, equals the reference document) and use_cache=True "
     "equals the reference. Non-trivial: 0 < k < len."
@@ -261,9 +263,53 @@ def run_case(case):
             for d in out:
                 d.setdefault("context", {}).update(cut=cut, length=len(doc))
             return out
+        if case["kind"] == "enospc":
+            return run_enospc(case, prod, images, ref, docs)
         raise ValueError(case["kind"])
     finally:
         clean(prod, images)
+
+
+def run_enospc(case, prod, images, ref, docs):
+    """disk full: the write of one image's index stops after `offset` bytes with ENOSPC, in THIS
+    process (so whatever the library remembers about the failed attempt is still in memory); the
+    failing call itself may raise OSError, every later open must behave"""
+    import errno
+
+    image = images[case["image"]]
+    offset = case["offset"] % (len(docs[image]) + 1)
+    original = pathlib.Path.write_text
+    original_open = pathlib.Path.open
+    injected = []
+
+    def torn_write_text(self, data, *args, **kwargs):
+        if not str(self).endswith(".index") or image not in str(self):
+            return original(self, data, *args, **kwargs)
+        fd = os.open(self, os.O_WRONLY | os.O_CREAT | os.O_TRUNC, 0o644)
+        try:
+            os.write(fd, data.encode()[:offset])
+        finally:
+            os.close(fd)
+        injected.append(str(self))
+        raise OSError(errno.ENOSPC, os.strerror(errno.ENOSPC), str(self))
+
+    pathlib.Path.write_text = torn_write_text
+    try:
+        tree, err = harness.guard(harness.open_tree, prod.url, create_cache=True, use_cache=False)
+    finally:
+        pathlib.Path.write_text = original
+        pathlib.Path.open = original_open
+    out = []
+    if not injected:
+        NOTES["enospc-not-injected"] += 1
+    if err is not None and not isinstance(err, OSError):
+        out.append(harness.disc("poisoned-open", "ENOSPC during create_cache", "a tree or an OSError", harness.exc_text(err)))
+    if err is None:
+        out.extend(dict(d, where=f"open that hit ENOSPC: {d['where']}") for d in harness.diff_flat(ref, harness.flatten(tree), kind="torn-cache-differs")[:3])
+    out.extend(after_fault(prod, images, ref, docs, "ENOSPC during create_cache"))
+    for d in out:
+        d.setdefault("context", {}).update(offset=offset, length=len(docs[image]))
+    return out
 
 
 def enum_cases(tier):
@@ -304,6 +350,12 @@ def random_prefix(draw):
 
 
 @st.composite
+def enospc_cases(draw):
+    return {"kind": "enospc", "level": draw(st.sampled_from(LEVELS)), "image": draw(st.integers(0, 1)),
+            "offset": draw(st.one_of(st.sampled_from([0, 1]), st.integers(0, 40000)))}
+
+
+@st.composite
 def kill_cases(draw):
     return {"kind": "kill", "level": draw(st.sampled_from(LEVELS)), "image": draw(st.integers(0, 1)), "offset": draw(st.integers(0, 40000))}
 
@@ -314,6 +366,7 @@ def plan(tier):
         {"kind": "enum", "name": "prefixes+live-writer", "cases": lambda: enum_cases(tier), "exhaustive": True},
         {"kind": "hyp", "name": "random-prefixes", "strategy": random_prefix(), "examples": 60 if q else 2000},
         {"kind": "hyp", "name": "sigkill", "strategy": kill_cases(), "examples": 8 if q else 200},
+        {"kind": "hyp", "name": "disk-full", "strategy": enospc_cases(), "examples": 24 if q else 1500},
     ]
 
 
